@@ -218,58 +218,54 @@ theorem setAttr_param {e : Est} {k : String} (v : Val) (h : k ∈ keys e.params)
     setAttr e k v = { e with params := assign e.params k v } := by
   simp [setAttr, get?_isSome_iff.mpr h]
 
-/-- all names plain and known: the loop assigns them one after the other and does not raise -/
-theorem setLoop_plain (st : LoopSt) (kvs : List (String × Val)) (hloc : st.loc = st.est.params)
-    (h : ∀ kv ∈ kvs, Plain kv.1 ∧ kv.1 ∈ keys st.est.params) :
-    setLoop st kvs =
-      (⟨{ st.est with params := applyAll st.est.params kvs }, applyAll st.est.params kvs, st.nested⟩, none) := by
+/-- all names plain and known: the loop collects them in order, `local_params` gets them
+assigned one after the other, nothing is raised -/
+theorem setLoop_plain (p : Store) (st : LoopSt) (kvs : List (String × Val)) (hloc : keys st.loc = keys p)
+    (h : ∀ kv ∈ kvs, Plain kv.1 ∧ kv.1 ∈ keys p) :
+    setLoop p st kvs = (⟨applyAll st.loc kvs, st.plain ++ kvs, st.nested⟩, none) := by
   induction kvs generalizing st with
-  | nil =>
-    obtain ⟨est, loc, nested⟩ := st
-    simp only at hloc
-    subst hloc
-    simp [setLoop, applyAll]
+  | nil => simp [setLoop, applyAll]
   | cons kv r ih =>
     obtain ⟨key, v⟩ := kv
     have hk := h (key, v) List.mem_cons_self
     have hplain : partitionKey key = (key, none) := hk.1
     have hknown := hk.2
+    have hkl : key ∈ keys st.loc := by rw [hloc]; exact hknown
     simp only [setLoop, hplain, get?_isSome_iff.mpr hknown, if_true]
-    rw [setAttr_param v hknown, hloc, upsert_of_mem v hknown]
-    rw [ih]
+    rw [upsert_of_mem v hkl, ih]
     · simp [applyAll]
-    · rfl
+    · simp only [keys_assign]; exact hloc
     · intro kv' hm
-      have := h kv' (List.mem_cons_of_mem _ hm)
-      refine ⟨this.1, ?_⟩
-      simp only [keys_assign]
-      exact this.2
+      exact h kv' (List.mem_cons_of_mem _ hm)
 
-/-- the loop never changes the key set, the `__dict__` or the class -/
-theorem setLoop_inv (st : LoopSt) (kvs : List (String × Val)) :
-    keys (setLoop st kvs).1.est.params = keys st.est.params ∧
-    (setLoop st kvs).1.est.attrs = st.est.attrs ∧ (setLoop st kvs).1.est.cls = st.est.cls := by
+/-- whatever the loop collected as plain names is a known name (or was there before) -/
+theorem setLoop_plain_known (p : Store) (st : LoopSt) (kvs : List (String × Val)) :
+    ∀ kv ∈ (setLoop p st kvs).1.plain, kv ∈ st.plain ∨ kv.1 ∈ keys p := by
   induction kvs generalizing st with
-  | nil => simp [setLoop]
+  | nil => intro kv hm; left; simpa [setLoop] using hm
   | cons kv r ih =>
     obtain ⟨key, v⟩ := kv
     simp only [setLoop]
     split
     · rename_i hknown
       split
-      · exact ih _
-      · have := ih { est := setAttr st.est (partitionKey key).1 v, loc := upsert st.loc (partitionKey key).1 v,
-                     nested := st.nested }
-        rw [setAttr_param v (get?_isSome_iff.mp hknown)] at this
-        simp only [keys_assign] at this
-        rw [setAttr_param v (get?_isSome_iff.mp hknown)]
-        exact this
-    · simp
+      · rename_i sub _
+        intro kv hm
+        exact ih { st with nested := st.nested ++ [((partitionKey key).1, sub, v)] } kv hm
+      · intro kv hm
+        rcases ih { st with plain := st.plain ++ [((partitionKey key).1, v)],
+                            loc := upsert st.loc (partitionKey key).1 v } kv hm with h1 | h1
+        · simp only [List.mem_append, List.mem_singleton] at h1
+          rcases h1 with h1 | h1
+          · left; exact h1
+          · right; subst h1; exact get?_isSome_iff.mp hknown
+        · right; exact h1
+    · intro kv hm; left; exact hm
 
 /-- an unknown name anywhere in the call raises `ValueError` -/
-theorem setLoop_unknown (st : LoopSt) (kvs : List (String × Val))
-    (h : ∃ kv ∈ kvs, (partitionKey kv.1).1 ∉ keys st.est.params) :
-    (setLoop st kvs).2 = some .value := by
+theorem setLoop_unknown (p : Store) (st : LoopSt) (kvs : List (String × Val))
+    (h : ∃ kv ∈ kvs, (partitionKey kv.1).1 ∉ keys p) :
+    (setLoop p st kvs).2 = some .value := by
   induction kvs generalizing st with
   | nil => simp at h
   | cons kv r ih =>
@@ -278,7 +274,7 @@ theorem setLoop_unknown (st : LoopSt) (kvs : List (String × Val))
     split
     · rename_i hknown
       have hk := get?_isSome_iff.mp hknown
-      have hrest : ∃ kv ∈ r, (partitionKey kv.1).1 ∉ keys st.est.params := by
+      have hrest : ∃ kv ∈ r, (partitionKey kv.1).1 ∉ keys p := by
         obtain ⟨kv', hm, hu⟩ := h
         simp only [List.mem_cons] at hm
         rcases hm with hm | hm
@@ -286,25 +282,95 @@ theorem setLoop_unknown (st : LoopSt) (kvs : List (String × Val))
         · exact ⟨kv', hm, hu⟩
       split
       · exact ih _ hrest
-      · apply ih
-        obtain ⟨kv', hm, hu⟩ := hrest
-        refine ⟨kv', hm, ?_⟩
-        rw [setAttr_param v hk]
-        simpa only [keys_assign] using hu
+      · exact ih _ hrest
     · rfl
+
+/-- the loop raises nothing but `ValueError` -/
+theorem setLoop_err (p : Store) (st : LoopSt) (kvs : List (String × Val)) :
+    (setLoop p st kvs).2 = none ∨ (setLoop p st kvs).2 = some .value := by
+  induction kvs generalizing st with
+  | nil => left; rfl
+  | cons kv r ih =>
+    obtain ⟨key, v⟩ := kv
+    simp only [setLoop]
+    split
+    · split
+      · exact ih _
+      · exact ih _
+    · right; rfl
 
 theorem runNested_nil (p : Store) : runNested p [] = ([], none) := by
   simp [runNested, eraseDupKeys, runNested.go]
 
-/-- `set_params` with plain, known names: sequential assignment, then validation of the result -/
+/-- the nested routing raises nothing but `AttributeError` -/
+theorem runNested_err (p : Store) (n : List (String × String × Val)) :
+    (runNested p n).2 = none ∨ (runNested p n).2 = some .attr := by
+  simp only [runNested]
+  generalize eraseDupKeys (n.map (·.1)) = gs
+  induction gs with
+  | nil => left; rfl
+  | cons g gs ih =>
+    simp only [runNested.go]
+    split
+    · exact ih
+    · right; rfl
+
+/-- assigning known names one after the other only rewrites `params` -/
+theorem assignAll_known (e : Est) (kvs : List (String × Val)) (h : ∀ kv ∈ kvs, kv.1 ∈ keys e.params) :
+    assignAll e kvs = { e with params := applyAll e.params kvs } := by
+  induction kvs generalizing e with
+  | nil => rfl
+  | cons kv r ih =>
+    have hk := h kv List.mem_cons_self
+    simp only [assignAll, List.foldl_cons, applyAll]
+    rw [setAttr_param kv.2 hk]
+    have := ih { e with params := assign e.params kv.1 kv.2 } (by
+      intro kv' hm
+      simp only [keys_assign]
+      exact h kv' (List.mem_cons_of_mem _ hm))
+    simpa only [assignAll, applyAll] using this
+
+/-- `set_params` with plain, known names: validation of the would-be store first; the object is
+replaced only when it passes -/
 theorem setParams_plain (checks : List Check) (e : Est) (kvs : List (String × Val)) (hne : kvs ≠ [])
     (h : ∀ kv ∈ kvs, Plain kv.1 ∧ kv.1 ∈ keys e.params) :
     setParams checks e kvs =
-      ⟨{ e with params := applyAll e.params kvs }, validate checks (applyAll e.params kvs), []⟩ := by
-  have hl := setLoop_plain ⟨e, e.params, []⟩ kvs rfl h
+      match validate checks (applyAll e.params kvs) with
+      | some err => ⟨e, some err, []⟩
+      | none => ⟨{ e with params := applyAll e.params kvs }, none, []⟩ := by
+  have hl := setLoop_plain e.params ⟨e.params, [], []⟩ kvs rfl h
   have : kvs.isEmpty = false := by cases kvs <;> simp_all
-  simp only [setParams, this, hl, runNested_nil]
-  rfl
+  simp only [setParams, this, hl, List.nil_append]
+  cases hv : validate checks (applyAll e.params kvs) with
+  | some err => simp
+  | none =>
+    simp only [Bool.false_eq_true, if_false]
+    rw [assignAll_known e kvs (fun kv hm => (h kv hm).2), runNested_nil]
+
+/-- a call that raises anything but the `AttributeError` of the nested routing — that is:
+`ValueError` for an unknown name, or whatever `validate_params` raises — changed nothing -/
+theorem setParams_rejected_unchanged (checks : List Check) (e : Est) (kvs : List (String × Val))
+    (x : Err) (hx : (setParams checks e kvs).err = some x) (hna : x ≠ .attr) :
+    (setParams checks e kvs).est = e ∧ (setParams checks e kvs).delegated = [] := by
+  simp only [setParams] at hx ⊢
+  split
+  · simp
+  · generalize setLoop e.params ⟨e.params, [], []⟩ kvs = L at hx ⊢
+    obtain ⟨st, err⟩ := L
+    cases err with
+    | some err => simp
+    | none =>
+      simp only at hx ⊢
+      cases hv : validate checks st.loc with
+      | some err => simp
+      | none =>
+        rename_i hemp
+        simp only [hemp, hv, Bool.false_eq_true, if_false] at hx
+        rcases runNested_err (assignAll e st.plain).params st.nested with h1 | h1
+        · rw [h1] at hx; cases hx
+        · rw [h1] at hx
+          simp only [Option.some.injEq] at hx
+          exact absurd hx.symm hna
 
 /-! ### validation -/
 
@@ -554,20 +620,32 @@ theorem setAttr_WF {e : Est} (h : e.WF) (k : String) (v : Val) : (setAttr e k v)
     rw [get?_upsert_other v hne]
     exact h.disjoint k' hk'
 
+theorem assignAll_inv (e : Est) (kvs : List (String × Val)) (h : ∀ kv ∈ kvs, kv.1 ∈ keys e.params) :
+    keys (assignAll e kvs).params = keys e.params ∧ (assignAll e kvs).attrs = e.attrs ∧
+    (assignAll e kvs).cls = e.cls := by
+  rw [assignAll_known e kvs h]
+  exact ⟨keys_applyAll _ _, rfl, rfl⟩
+
 theorem setParams_inv (checks : List Check) (e : Est) (kvs : List (String × Val)) :
     keys (setParams checks e kvs).est.params = keys e.params ∧
     (setParams checks e kvs).est.attrs = e.attrs ∧ (setParams checks e kvs).est.cls = e.cls := by
   simp only [setParams]
   split
   · simp
-  · have := setLoop_inv ⟨e, e.params, []⟩ kvs
-    generalize setLoop ⟨e, e.params, []⟩ kvs = L at this
+  · have hk := setLoop_plain_known e.params ⟨e.params, [], []⟩ kvs
+    generalize setLoop e.params ⟨e.params, [], []⟩ kvs = L at hk
     obtain ⟨st, err⟩ := L
     cases err with
-    | some err => simpa using this
+    | some err => simp
     | none =>
       simp only
-      split <;> simpa using this
+      split
+      · simp
+      · apply assignAll_inv
+        intro kv hm
+        rcases hk kv hm with h1 | h1
+        · simp at h1
+        · exact h1
 
 /-! ### ownership -/
 
